@@ -496,7 +496,13 @@ func Run(root func(), c Config, s *Tape) Result {
 				if r&127 >= stay {
 					idx = (r >> 7) % len(cand)
 				}
-				if holdsLeft > 0 && r>>7 >= 512-6 && cfg.HoldMax > 0 {
+				// a task about to evaluate a select with several cases is the most rewarding one
+				// to freeze: when it resumes, more than one case may be ready and the tape decides
+				holdOdds := 6
+				if cand[idx].kind == "select" && cand[idx].n >= 2 {
+					holdOdds = 64
+				}
+				if holdsLeft > 0 && r>>7 >= 512-holdOdds && cfg.HoldMax > 0 {
 					// slow-task fault: freeze this gate for a simulated duration
 					d := holdDurations[S.Draw(len(holdDurations))]
 					if d > cfg.HoldMax {
